@@ -192,6 +192,82 @@ def _replay_emergency_then_claims():
     return generic_replay(build)
 
 
+TWO_PIECE_FILLS = [(3, 3, 31 * DAY), (50, 50, 2629746), (1, 1, 200 * DAY)]
+
+
+def _ob_two_piece_close_then_claims(I):
+    """alice's position was filled in two pieces (recorded weight = weight(p1) + weight(pa - p1), possibly one unit below weight(pa)); she claims, closes it in
+    full at epoch 10; in epoch 11 bob claims: he is paid his exact shares -- the total weight still covers the remaining users"""
+    sc = Scn(I, alice_second=None, bob_from=6)
+    b = sc.b
+    f0 = sc.farms[0]
+    I.assume(smt.Eq(f0['claimed0'], 0))
+    pa = I.inputs['pos_a']
+    wa = I.inputs['wa']
+    # concrete pieces whose floored weights add up to less than the weight of the whole (the curve is evaluated on concrete values; weights of the
+    # other users, the rate and the budgets stay symbolic)
+    q1, q2, dur = I.param('two_piece_fill', TWO_PIECE_FILLS)
+    I.assume(smt.Eq(pa, q1 + q2))
+    ms = I.world.store(FM)['positions']
+    for ent in ms.entries:
+        if ent[0][0] == 'u-a':
+            ent[1] = position('u-a', LP1, q1 + q2, dur, 'alice', None)
+    ws = []
+    for part in (q1, q2):
+        wst, wr = I.try_call('calculate_weight', [Ref([coin_v(LP1, part)], 0), dur], CRF)
+        if wst != 'ok' or not is_ok(wr):
+            raise Infeasible()
+        ws.append(wr.f[0])
+    I.assume(smt.Eq(wa, ws[0] + ws[1]))
+    pre = b.snapshot()
+    st_a, _ = sc.claim('alice', None)
+    st_c, _ = sc.chain.execute('alice', FM, manage_position('Close', identifier='u-a', lp_asset=NONE()), [])
+    set_epoch(I, E + 1, now_s=(E + 1) * DAY + 5)
+    sc.chain.time_nanos = I.world.meta['time_nanos']
+    st_b, _ = sc.claim('bob', None)
+    I.observe('status', 'ok' if st_b == 'ok' else 'err')
+    observe_claim_state(I, sc, users=('bob',))
+    I.cover('done', HINT)
+    if st_a != 'ok' or st_c != 'ok':
+        I.outcome('claim_or_close_refused')
+        return
+    I.check('claim_of_the_remaining_user_succeeds', st_b == 'ok')
+    paid_b = simp(b.get('bob', 'uusd') - pre.get('bob', 'uusd'))
+    exp_b, _ = sc.expected('bob', E)
+    e11 = I.ctx.fdiv(simp(f0['rate'] * I.inputs['wb']), simp(I.inputs['others'] + I.inputs['wb']))
+    I.check('remaining_user_paid_exactly_their_epoch_shares', smt.Eq(paid_b, exp_b + e11))
+
+
+def _replay_two_piece_close_then_claims():
+    from .pm import generic_replay
+
+    def build(m):
+        a_snaps = [(3, m['wa'])]
+        b_snaps = [(6, m['wb'])]
+        t_snaps = [(e, m['others'] + carry(a_snaps, e) + carry(b_snaps, e)) for e in (3, 6)]
+        weights = [('alice', LP1, e, w) for e, w in a_snaps] + [('bob', LP1, e, w) for e, w in b_snaps] + [('farm_manager', LP1, e, w) for e, w in t_snaps]
+        rate = m['rate']
+        q1, q2, dur = TWO_PIECE_FILLS[m.get('_choices', {}).get('param:two_piece_fill', 0)]
+        steps = fm_state_steps(None, positions=[('u-a', LP1, q1 + q2, dur, 'alice', None), ('u-b', LP1, m['pos_b'], DAY, 'bob', None)],
+                               farms=[('f-1', 'fowner', LP1, 'uusd', rate * 8, 0, rate, 4, 12)], weights=weights, now_s=E * DAY + 5,
+                               mints=[('farm_manager', [('uusd', m['fm_reward_balance']), (LP1, q1 + q2 + m['pos_b'])])])
+        steps.append({'op': 'execute', 'contract': 'farm_manager', 'sender': 'alice', 'funds': [], 'msg': {'claim': {'until_epoch': None}}})
+        steps.append({'op': 'execute', 'contract': 'farm_manager', 'sender': 'alice', 'funds': [],
+                      'msg': {'manage_position': {'action': {'close': {'identifier': 'u-a', 'lp_asset': None}}}}})
+        steps.append({'op': 'set_time', 'nanos': str(((E + 1) * DAY + 5) * NS)})
+        steps.append({'op': 'execute', 'contract': 'farm_manager', 'sender': 'bob', 'funds': [], 'msg': {'claim': {'until_epoch': None}}})
+        sc = {'setup': {'time_nanos': '0', 'epoch': {'genesis': '0', 'duration': str(DAY)}, 'farm': {'max_concurrent_farms': 2}}, 'steps': steps}
+        return sc, len(steps) - 1
+    return generic_replay(build)
+
+
+obligation('C06', 'B2.two_piece_position_closed_then_claims', entries=['execute', 'claim', 'close_position', 'update_weights', 'calculate_rewards'],
+           kind='B', statement='a user whose position was filled in two pieces claims and closes it in full; in the next epoch the remaining user claims: paid exactly the epoch '
+                               'shares computed with the remaining weights -- never more than the emission',
+           bounds='current epoch 10 then 11, farm [4,12), position filled in two concrete pieces (3+3 at 31 days, 50+50 at one month, 1+1 at 200 days), other weights / rate symbolic', covers=['done'],
+           replay=_replay_two_piece_close_then_claims())(_ob_two_piece_close_then_claims)
+
+
 obligation('C06', 'B2.emergency_exit_of_closed_position_then_claims', entries=['execute', 'withdraw_position', 'update_weights', 'claim', 'calculate_rewards'],
            kind='B', statement='a third user emergency-withdraws a closed, still locked position; in the next epoch the two remaining users claim: both succeed, '
                                'each gets exactly their epoch shares and together never more than the emission',
